@@ -20,7 +20,6 @@ import (
 	gpb "github.com/openconfig/gnmi/proto/gnmi"
 	"github.com/openconfig/gnmi/proto/gnmi_ext"
 	"google.golang.org/grpc/codes"
-	"google.golang.org/grpc/status"
 	"time"
 
 	transactionstore "github.com/onosproject/onos-config/pkg/store/v3/transaction"
@@ -420,7 +419,7 @@ func (r *Reconciler) applyChange(ctx context.Context, transaction *configapi.Tra
 		if ok, err := r.applyValues(ctx, transaction, configuration, values); !ok {
 			return controller.Result{}, false, err
 		} else if err != nil {
-			code := status.Code(err)
+			code := errors.Status(err).Code()
 			switch code {
 			case codes.Unavailable, codes.Canceled, codes.DeadlineExceeded:
 				return controller.Result{}, false, err
@@ -775,7 +774,7 @@ func (r *Reconciler) applyRollback(ctx context.Context, transaction *configapi.T
 		if ok, err := r.applyValues(ctx, transaction, configuration, values); !ok {
 			return controller.Result{}, false, err
 		} else if err != nil {
-			code := status.Code(err)
+			code := errors.Status(err).Code()
 			switch code {
 			case codes.Unavailable, codes.Canceled, codes.DeadlineExceeded:
 				return controller.Result{}, false, err
